@@ -18,6 +18,8 @@ import (
 	"math"
 	"math/big"
 
+	"github.com/tuneinsight/lattigo/v6/ring"
+
 	"verif/harness/eng"
 	"verif/harness/gen"
 	"verif/harness/ref"
@@ -26,6 +28,16 @@ import (
 type ringCfg struct {
 	LogN   int      `json:"logN"`
 	Moduli []uint64 `json:"moduli"`
+	// CI: conjugate-invariant ring (Z[X+X^-1]/(X^2N+1), moduli = 1 mod 4N); extension families only.
+	CI bool `json:"ci,omitempty"`
+}
+
+// newRing instantiates the ring of a configuration.
+func newRing(rc ringCfg) (*ring.Ring, error) {
+	if rc.CI {
+		return ring.NewRingConjugateInvariant(1<<rc.LogN, rc.Moduli)
+	}
+	return ring.NewRing(1<<rc.LogN, rc.Moduli)
 }
 
 type distCfg struct {
@@ -251,19 +263,23 @@ func cases(tier string, seed int64) []eng.Case {
 	out = append(out, statCases(r, thorough)...)
 	// 6. generators, key expansion, seeded encryption, common reference polynomials
 	out = append(out, miscCases(r, thorough)...)
+	// 7. extension families (coverage audit): their own generator stream, so the ids above are stable
+	out = append(out, extCases(thorough, seed)...)
 	return out
 }
 
 func init() {
 	eng.Register(&eng.Monitor{
 		ID: "C17", Level: "exploration",
-		Rule: "cases = script (sampler kind x distribution parameters x Montgomery flag x ring (logN 4..11, 1..6 primes of 6..61 bits) x a random script of <= 50 Read/ReadNew/ReadAndAdd/AtLevel calls over level views sharing one source, executed by three samplers keyed identically), stat (>= 2^16 coefficients per configuration), prng / expand / seeded / crp (reproducibility through generators, compressed evaluation keys, seeded encryption and common reference polynomials). distinct key = (sampler kind, parameter tag, Montgomery, logN, number of primes, operation, view depth 0/1/>=2, level class) for script steps and (kind, parameter tag, configuration) elsewhere; non-trivial = the step runs on a level view, or is ReadAndAdd, or produces Montgomery output, or the parameter sits on a boundary (H in {1,N-1,N,N+5}, big-number Gaussian path, bound 1, p in {0.01,0.99}); a statistics case is non-trivial when it judged >= 2^16 coefficients; reproducibility cases are non-trivial when both the equal-key and the distinct-key comparison were made.",
+		Rule:  "cases = script (sampler kind x distribution parameters x Montgomery flag x ring (logN 4..11, 1..6 primes of 6..61 bits) x a random script of <= 50 Read/ReadNew/ReadAndAdd/AtLevel calls over level views sharing one source, executed by three samplers keyed identically), stat (>= 2^16 coefficients per configuration), prng / expand / seeded / crp (reproducibility through generators, compressed evaluation keys, seeded encryption and common reference polynomials). distinct key = (sampler kind, parameter tag, Montgomery, logN, number of primes, operation, view depth 0/1/>=2, level class) for script steps and (kind, parameter tag, configuration) elsewhere; non-trivial = the step runs on a level view, or is ReadAndAdd, or produces Montgomery output, or the parameter sits on a boundary (H in {1,N-1,N,N+5}, big-number Gaussian path, bound 1, p in {0.01,0.99}); a statistics case is non-trivial when it judged >= 2^16 coefficients; reproducibility cases are non-trivial when both the equal-key and the distinct-key comparison were made. Extension families (own generator stream): xscript/xstat = the same script and shape oracles on ring degree 8, 10..24 moduli, the conjugate-invariant ring, degrees 2^12..2^15, dyadic and extreme densities, standard deviations on both sides of the big-number switch, every Hamming weight 1..N (N <= 32, thorough <= 128) and receivers pre-filled with 0 / q-1 / edge values; xmixed = a uniform, a Gaussian and a ternary sampler on ONE generator with interleaved calls over their level views (distinct key as for script steps, always non-trivial); xrand = ring.RandUniform, bignum.RandInt and the sampling.Rand* helpers (distinct = entry point and bound; range, reproducibility, chi-square, top of the range reached); xprng = chunking invariance, nil / oversized keys, Reset mid-stream, NewPRNG freshness; xexpand = compressed keys at LevelP=-1 under parameters with P, Expand after CopyNew / serialisation / refused buffers, one seed per key, rlwe.NewTestEncryptorWithPRNG twins, CRP sampling of the CKKS/BGV refresh protocols.",
 		Cases: cases,
 		Assumptions: []string{
 			"math/big, math.Erf and the harness' 128-bit modular arithmetic are correct",
 			"statistical acceptance regions are >= 6 standard errors wide (chi-square thresholds at p < 1e-9) and evaluated at fixed seeds; smaller distortions are not observable",
 			"for a Gaussian coefficient the integer is recovered by CRT over the moduli of the level; levels whose modulus does not exceed 2*floor(B+1/2)+1 cannot be judged and are counted in gauss_level_vacuous",
 			"a Gaussian sampler in plain mode may represent zero by q_i (counted in gauss_zero_as_q): no range is documented for its output",
+			"the sampling.Rand* helpers read crypto/rand (replaced by the engine's keyed stream): only their range and shape are judged",
+			"a sampler object is not required to replay after KeyedPRNG.Reset, nor to produce what a fresh sampler placed at the same stream position produces (byte look-ahead is legitimate); only identically keyed twins doing the same calls are compared",
 		},
 	})
 }
